@@ -31,6 +31,68 @@ func runColdStart(a *args) {
 	one := func(k int) mask { var m mask; m.add(k); return m }
 	n := runtime.GOMAXPROCS(0) * 2
 	switch prop {
+	case "C02":
+		// first Vector() / ParseVector calls of the process, made concurrently; objects and their canonical
+		// strings from the model states ("@S" lines of MC_Object)
+		var sts []objState
+		readTLCLines(a.In, "@S", func(raw []byte) {
+			var s objState
+			if json.Unmarshal(raw, &s) == nil && len(sts) < 4000 {
+				sts = append(sts, s)
+			}
+		})
+		if len(sts) == 0 {
+			fatal("coldstart: no @S lines")
+		}
+		k := n
+		type vr struct {
+			ver, want, got string
+			back           bool
+		}
+		res := make([]vr, k)
+		objs := make([]Obj, k)
+		for i := 0; i < k; i++ {
+			s := sts[(int(a.Seed)*31+i*37)%len(sts)]
+			o := versions[s.Ver].Zero()
+			for j, m := range s.Order {
+				o.Set(m, s.O[j])
+			}
+			objs[i] = o
+			res[i] = vr{ver: s.Ver, want: string(bytesOf(s.Vec))}
+		}
+		var wg sync.WaitGroup
+		var ready, goFlag int32
+		for i := 0; i < k; i++ {
+			wg.Add(1)
+			go func(i int) {
+				defer wg.Done()
+				atomic.AddInt32(&ready, 1)
+				for atomic.LoadInt32(&goFlag) == 0 {
+				}
+				for t := time.Now(); time.Since(t) < time.Duration(i%16)*4*time.Microsecond; {
+				}
+				safely(func() {
+					res[i].got = objs[i].Vector()
+					b, err := versions[res[i].ver].Parse(res[i].got)
+					res[i].back = err == nil && b != nil && b.Same(objs[i])
+				})
+			}(i)
+		}
+		for atomic.LoadInt32(&ready) < int32(k) {
+			runtime.Gosched()
+		}
+		atomic.StoreInt32(&goFlag, 1)
+		wg.Wait()
+		for _, r := range res {
+			col.distinct(r.ver+r.want, true)
+			col.count("first-use Vector()/ParseVector round trips", 1)
+			if !r.back {
+				col.violate(Violation{Property: prop, Kind: "ParseVector(Vector()) != original object (first calls of the process, made concurrently)", Version: r.ver,
+					Input: r.want, Expected: "round trip to an == object", Observed: r.got})
+			}
+		}
+		col.write(a.Out)
+		return
 	case "C03":
 		tb := loadV3Tables(a.In)
 		for _, vn := range []string{"3.0", "3.1"} {
